@@ -579,8 +579,10 @@ theorem plQuit_spec (w : W) (c : Cli) : QuitFlush w c (plQuit w c) [item101] ∧
       simp only [put, bstr_101, if_true, hne, Bool.false_eq_true, if_false, hcap]
     rw [this]
     exact ⟨⟨rfl, Or.inl ⟨hcap, rfl, rfl⟩⟩, rfl, rfl, ⟨rfl, rfl, rfl, rfl, rfl⟩⟩
-  · have : plQuit w c = ({ w with sys := w.sys ++ [Sys.write c.fd (c.toBuf ++ render [item101]) false
-          (capOf w c.fd < ((c.toBuf ++ render [item101]).length : Int))] },
+  · have : plQuit w c = (setCap { w with sys := w.sys ++ [Sys.write c.fd (c.toBuf ++ render [item101]) false
+          (capOf w c.fd < ((c.toBuf ++ render [item101]).length : Int))] } c.fd
+          (if capOf w c.fd < ((c.toBuf ++ render [item101]).length : Int) then 0
+           else capOf w c.fd - ((c.toBuf ++ render [item101]).length : Int)),
         { c with quit := true, blocking := true, toBuf := [] }) := by
       unfold plQuit handleWrite
       simp only [put, bstr_101, if_true, hne, Bool.false_eq_true, if_false, hcap]
